@@ -114,6 +114,17 @@ theorem soundObj : ∀ (lhs : Obj) (lc rc : Option PCtx) (rhs : Obj) (sel : Sel)
       obtain ⟨k', o, r, s', hmem, hk, hr, hs, c', hreach, hl1, hl2⟩ :=
         soundMembers ms lc true (strip rc rhs).1 (strip rc rhs).2 sel names lp rp ps h p hp
       exact ⟨c', .step (Step.mk (nrm (.view k st off sz ms) lc rc rhs sel ls rs lp rp) names k' o r s' hplan hk hmem hr hs) hreach, hl1, hl2⟩
+  | .const k sz v fl ms, lc, rc, rhs, sel, ls, rs, lp, rp, ps, h => by
+    rw [assignObj] at h
+    split at h
+    · cases h
+    · rename_i hplan
+      exact leaf_case (nrm (.const k sz v fl ms) lc rc rhs sel ls rs lp rp) ps hplan h
+    · rename_i names hplan
+      intro p hp
+      obtain ⟨k', o, r, s', hmem, hk, hr, hs, c', hreach, hl1, hl2⟩ :=
+        soundMembers ms lc true (strip rc rhs).1 (strip rc rhs).2 sel names lp rp ps h p hp
+      exact ⟨c', .step (Step.mk (nrm (.const k sz v fl ms) lc rc rhs sel ls rs lp rp) names k' o r s' hplan hk hmem hr hs) hreach, hl1, hl2⟩
   | .dict ms, lc, rc, rhs, sel, ls, rs, lp, rp, ps, h => by
     rw [assignObj] at h
     split at h
@@ -143,12 +154,19 @@ theorem soundObj : ∀ (lhs : Obj) (lc rc : Option PCtx) (rhs : Obj) (sel : Sel)
     · rename_i hplan
       exact leaf_case (nrm (.val st off w sg e) lc rc rhs sel ls rs lp rp) ps hplan h
     · cases h
-  | .int v, lc, rc, rhs, sel, ls, rs, lp, rp, ps, h => by
+  | .int v w sg en, lc, rc, rhs, sel, ls, rs, lp, rp, ps, h => by
     rw [assignObj] at h
     split at h
     · cases h
     · rename_i hplan
-      exact leaf_case (nrm (.int v) lc rc rhs sel ls rs lp rp) ps hplan h
+      exact leaf_case (nrm (.int v w sg en) lc rc rhs sel ls rs lp rp) ps hplan h
+    · cases h
+  | .enumv st off w id, lc, rc, rhs, sel, ls, rs, lp, rp, ps, h => by
+    rw [assignObj] at h
+    split at h
+    · cases h
+    · rename_i hplan
+      exact leaf_case (nrm (.enumv st off w id) lc rc rhs sel ls rs lp rp) ps hplan h
     · cases h
 theorem soundMembers : ∀ (ms : Members) (lc : Option PCtx) (lvl : Bool) (rc : Option PCtx) (rhs : Obj) (sel : Sel)
     (names : List Key) (lp rp : Path) (ps : List Pair),
@@ -227,6 +245,25 @@ theorem completeObj : ∀ (lhs : Obj) (lc rc : Option PCtx) (rhs : Obj) (sel : S
           rw [hplan] at h1'
           cases h1'
           exact completeMembers ms lc true (strip rc rhs).1 (strip rc rhs).2 sel names lp rp ps h k' o h3 h2 r s' h4 h5 c' hrest hleaf
+  | .const k sz v fl ms, lc, rc, rhs, sel, ls, rs, lp, rp, ps, h => by
+    rw [assignObj] at h
+    intro c' hreach hleaf
+    split at h
+    · cases h
+    · rename_i hplan
+      exact leaf_reach (nrm (.const k sz v fl ms) lc rc rhs sel ls rs lp rp) ps hplan h c' hreach hleaf
+    · rename_i names hplan
+      cases hreach with
+      | refl =>
+        have hleaf' : plan lc (.const k sz v fl ms) (strip rc rhs).1 (strip rc rhs).2 sel = .ok .leaf := hleaf
+        rw [hplan] at hleaf'; cases hleaf'
+      | step hstep hrest =>
+        cases hstep with
+        | mk names' k' o r s' h1 h2 h3 h4 h5 =>
+          have h1' : plan lc (.const k sz v fl ms) (strip rc rhs).1 (strip rc rhs).2 sel = .ok (.descend names') := h1
+          rw [hplan] at h1'
+          cases h1'
+          exact completeMembers ms lc true (strip rc rhs).1 (strip rc rhs).2 sel names lp rp ps h k' o h3 h2 r s' h4 h5 c' hrest hleaf
   | .dict ms, lc, rc, rhs, sel, ls, rs, lp, rp, ps, h => by
     rw [assignObj] at h
     intro c' hreach hleaf
@@ -273,13 +310,21 @@ theorem completeObj : ∀ (lhs : Obj) (lc rc : Option PCtx) (rhs : Obj) (sel : S
     · rename_i hplan
       exact leaf_reach (nrm (.val st off w sg e) lc rc rhs sel ls rs lp rp) ps hplan h c' hreach hleaf
     · cases h
-  | .int v, lc, rc, rhs, sel, ls, rs, lp, rp, ps, h => by
+  | .int v w sg en, lc, rc, rhs, sel, ls, rs, lp, rp, ps, h => by
     rw [assignObj] at h
     intro c' hreach hleaf
     split at h
     · cases h
     · rename_i hplan
-      exact leaf_reach (nrm (.int v) lc rc rhs sel ls rs lp rp) ps hplan h c' hreach hleaf
+      exact leaf_reach (nrm (.int v w sg en) lc rc rhs sel ls rs lp rp) ps hplan h c' hreach hleaf
+    · cases h
+  | .enumv st off w id, lc, rc, rhs, sel, ls, rs, lp, rp, ps, h => by
+    rw [assignObj] at h
+    intro c' hreach hleaf
+    split at h
+    · cases h
+    · rename_i hplan
+      exact leaf_reach (nrm (.enumv st off w id) lc rc rhs sel ls rs lp rp) ps hplan h c' hreach hleaf
     · cases h
 theorem completeMembers : ∀ (ms : Members) (lc : Option PCtx) (lvl : Bool) (rc : Option PCtx) (rhs : Obj) (sel : Sel)
     (names : List Key) (lp rp : Path) (ps : List Pair),
@@ -347,6 +392,10 @@ inductive Chain (c : Option PCtx) : Obj → Path → Obj → Prop
   | down (k : VKind) (st off sz : Nat) (key : Key) (m o' : Obj) (p : Path) (fs : List Key) :
       argFields c (.view k st off sz (.cons key m .nil)) = .ok (some fs) → Chain c m p o' →
       Chain c (.view k st off sz (.cons key m .nil)) (key :: p) o'
+  | downc (k : VKind) (sz v : Nat) (fl : List (Key × Nat × Bool × Nat)) (key : Key) (m o' : Obj) (p : Path)
+      (fs : List Key) :
+      argFields c (.const k sz v fl (.cons key m .nil)) = .ok (some fs) → Chain c m p o' →
+      Chain c (.const k sz v fl (.cons key m .nil)) (key :: p) o'
 
 theorem unwrap_chain (c : Option PCtx) : ∀ (o o' : Obj) (p : Path), unwrap c o = .ok (o', p) → Chain c o p o'
   | .view k st off sz .nil, o', p, h => by
@@ -367,8 +416,27 @@ theorem unwrap_chain (c : Option PCtx) : ∀ (o o' : Obj) (p : Path), unwrap c o
         obtain ⟨h1, h2⟩ : o'' = o' ∧ key :: p' = p := by simpa [pure, Except.pure] using h
         subst h1 h2
         exact .down k st off sz key m o'' p' fs hf (unwrap_chain c m o'' p' hu)
+  | .const k sz v fl .nil, o', p, h => by
+    simp only [unwrap] at h
+    split at h <;> cases h <;> exact .stop _
+  | .const k sz v fl (.cons key m (.cons k2 m2 t)), o', p, h => by
+    simp only [unwrap] at h
+    split at h <;> cases h <;> exact .stop _
+  | .const k sz v fl (.cons key m .nil), o', p, h => by
+    simp only [unwrap] at h
+    split at h
+    · cases h
+    · cases h; exact .stop _
+    · rename_i fs hf
+      split at h
+      · cases h
+      · rename_i o'' p' hu
+        obtain ⟨h1, h2⟩ : o'' = o' ∧ key :: p' = p := by simpa [pure, Except.pure] using h
+        subst h1 h2
+        exact .downc k sz v fl key m o'' p' fs hf (unwrap_chain c m o'' p' hu)
   | .val .., o', p, h => by simp only [unwrap] at h; cases h; exact .stop _
-  | .int _, o', p, h => by simp only [unwrap] at h; cases h; exact .stop _
+  | .int .., o', p, h => by simp only [unwrap] at h; cases h; exact .stop _
+  | .enumv .., o', p, h => by simp only [unwrap] at h; cases h; exact .stop _
   | .dict _, o', p, h => by simp only [unwrap] at h; cases h; exact .stop _
   | .list _, o', p, h => by simp only [unwrap] at h; cases h; exact .stop _
   | .proxy .., o', p, h => by simp only [unwrap] at h; cases h; exact .stop _
@@ -485,11 +553,12 @@ def Fails (c : Call) : Prop :=
 
 /-- a plain value or an int on the left is never descended into -/
 theorem plan_scalar (lc : Option PCtx) (lhs : Obj) (rc : Option PCtx) (rhs : Obj) (sel : Sel) (names : List Key)
-    (hs : (∃ st off w sg e, lhs = .val st off w sg e) ∨ ∃ v, lhs = .int v) :
+    (hs : (∃ st off w sg e, lhs = .val st off w sg e) ∨ (∃ v w sg en, lhs = .int v w sg en) ∨
+      ∃ st off w id, lhs = .enumv st off w id) :
     plan lc lhs rc rhs sel ≠ .ok (.descend names) := by
   intro h
   unfold plan at h
-  rcases hs with ⟨st, off, w, sg, e, rfl⟩ | ⟨v, rfl⟩
+  rcases hs with ⟨st, off, w, sg, e, rfl⟩ | ⟨v, w, sg, en, rfl⟩ | ⟨st, off, w, id, rfl⟩
   all_goals
     simp only [argFields] at h
     split at h
@@ -517,6 +586,18 @@ theorem errObj : ∀ (lhs : Obj) (lc rc : Option PCtx) (rhs : Obj) (sel : Sel) (
         ⟨k', o, hmem, hk, hbad⟩ | ⟨k', o, r, s', hmem, hk, hr, hs, c', hreach, hf⟩
       · exact ⟨_, .refl _, .inr (.inr ⟨names, k', o, hplan, hk, hmem, hbad⟩)⟩
       · exact ⟨c', .step (Step.mk (nrm (.view k st off sz ms) lc rc rhs sel ls rs lp rp) names k' o r s' hplan hk hmem hr hs) hreach, hf⟩
+  | .const k sz v fl ms, lc, rc, rhs, sel, ls, rs, lp, rp, e, h => by
+    rw [assignObj] at h
+    split at h
+    · rename_i e' hplan
+      exact ⟨_, .refl _, .inl ⟨e', hplan⟩⟩
+    · rename_i hplan
+      exact ⟨_, .refl _, .inr (.inl ⟨hplan, e, h⟩)⟩
+    · rename_i names hplan
+      rcases errMembers ms lc true (strip rc rhs).1 (strip rc rhs).2 sel names lp rp e h with
+        ⟨k', o, hmem, hk, hbad⟩ | ⟨k', o, r, s', hmem, hk, hr, hs, c', hreach, hf⟩
+      · exact ⟨_, .refl _, .inr (.inr ⟨names, k', o, hplan, hk, hmem, hbad⟩)⟩
+      · exact ⟨c', .step (Step.mk (nrm (.const k sz v fl ms) lc rc rhs sel ls rs lp rp) names k' o r s' hplan hk hmem hr hs) hreach, hf⟩
   | .dict ms, lc, rc, rhs, sel, ls, rs, lp, rp, e, h => by
     rw [assignObj] at h
     split at h
@@ -550,7 +631,7 @@ theorem errObj : ∀ (lhs : Obj) (lc rc : Option PCtx) (rhs : Obj) (sel : Sel) (
       exact ⟨_, .refl _, .inr (.inl ⟨hplan, e, h⟩)⟩
     · rename_i names hplan
       exact absurd hplan (plan_scalar _ _ _ _ _ names (.inl ⟨st, off, w, sg, ex, rfl⟩))
-  | .int v, lc, rc, rhs, sel, ls, rs, lp, rp, e, h => by
+  | .int v w sg en, lc, rc, rhs, sel, ls, rs, lp, rp, e, h => by
     rw [assignObj] at h
     split at h
     · rename_i e' hplan
@@ -558,7 +639,16 @@ theorem errObj : ∀ (lhs : Obj) (lc rc : Option PCtx) (rhs : Obj) (sel : Sel) (
     · rename_i hplan
       exact ⟨_, .refl _, .inr (.inl ⟨hplan, e, h⟩)⟩
     · rename_i names hplan
-      exact absurd hplan (plan_scalar _ _ _ _ _ names (.inr ⟨v, rfl⟩))
+      exact absurd hplan (plan_scalar _ _ _ _ _ names (.inr (.inl ⟨v, w, sg, en, rfl⟩)))
+  | .enumv st off w id, lc, rc, rhs, sel, ls, rs, lp, rp, e, h => by
+    rw [assignObj] at h
+    split at h
+    · rename_i e' hplan
+      exact ⟨_, .refl _, .inl ⟨e', hplan⟩⟩
+    · rename_i hplan
+      exact ⟨_, .refl _, .inr (.inl ⟨hplan, e, h⟩)⟩
+    · rename_i names hplan
+      exact absurd hplan (plan_scalar _ _ _ _ _ names (.inr (.inr ⟨st, off, w, id, rfl⟩)))
 theorem errMembers : ∀ (ms : Members) (lc : Option PCtx) (lvl : Bool) (rc : Option PCtx) (rhs : Obj) (sel : Sel)
     (names : List Key) (lp rp : Path) (e : Err),
     assignMembers ms lc lvl rc rhs sel names lp rp = .error e →
@@ -659,6 +749,33 @@ theorem okObj : ∀ (lhs : Obj) (lc rc : Option PCtx) (rhs : Obj) (sel : Sel) (l
         | mk names' k' o r s' h1 h2 h3 h4 h5 =>
           rw [hplan'] at h1; cases h1
           exact (okMembers ms lc true (strip rc rhs).1 (strip rc rhs).2 sel names lp rp ps h k' o h3 h2).2 r s' h4 h5 c' hrest hf
+  | .const k sz v fl ms, lc, rc, rhs, sel, ls, rs, lp, rp, ps, h => by
+    rw [assignObj] at h
+    intro c' hreach hf
+    split at h
+    · cases h
+    · rename_i hplan
+      exact leaf_nofail (nrm (.const k sz v fl ms) lc rc rhs sel ls rs lp rp) ps hplan h c' hreach hf
+    · rename_i names hplan
+      have hplan' : (nrm (.const k sz v fl ms) lc rc rhs sel ls rs lp rp).planOf = .ok (.descend names) := hplan
+      cases hreach with
+      | refl =>
+        rcases hf with ⟨e, he⟩ | ⟨hl, _⟩ | ⟨names', k', o, h1, h2, h3, hbad⟩
+        · rw [hplan'] at he; cases he
+        · rw [hplan'] at hl; cases hl
+        · rw [hplan'] at h1; cases h1
+          obtain ⟨⟨r, s', hr, hs⟩, _⟩ := okMembers ms lc true (strip rc rhs).1 (strip rc rhs).2 sel names lp rp ps h k' o h3 h2
+          rcases hbad with hb | hb
+          · have hr' : (strip rc rhs).2.members.lookup k' = some r := hr
+            have hb' : (strip rc rhs).2.members.lookup k' = none := hb
+            rw [hr'] at hb'; cases hb'
+          · have hb' : subSel sel k' = none := hb
+            rw [hs] at hb'; cases hb'
+      | step hstep hrest =>
+        cases hstep with
+        | mk names' k' o r s' h1 h2 h3 h4 h5 =>
+          rw [hplan'] at h1; cases h1
+          exact (okMembers ms lc true (strip rc rhs).1 (strip rc rhs).2 sel names lp rp ps h k' o h3 h2).2 r s' h4 h5 c' hrest hf
   | .dict ms, lc, rc, rhs, sel, ls, rs, lp, rp, ps, h => by
     rw [assignObj] at h
     intro c' hreach hf
@@ -721,13 +838,21 @@ theorem okObj : ∀ (lhs : Obj) (lc rc : Option PCtx) (rhs : Obj) (sel : Sel) (l
     · rename_i hplan
       exact leaf_nofail (nrm (.val st off w sg ex) lc rc rhs sel ls rs lp rp) ps hplan h c' hreach hf
     · cases h
-  | .int v, lc, rc, rhs, sel, ls, rs, lp, rp, ps, h => by
+  | .int v w sg en, lc, rc, rhs, sel, ls, rs, lp, rp, ps, h => by
     rw [assignObj] at h
     intro c' hreach hf
     split at h
     · cases h
     · rename_i hplan
-      exact leaf_nofail (nrm (.int v) lc rc rhs sel ls rs lp rp) ps hplan h c' hreach hf
+      exact leaf_nofail (nrm (.int v w sg en) lc rc rhs sel ls rs lp rp) ps hplan h c' hreach hf
+    · cases h
+  | .enumv st off w id, lc, rc, rhs, sel, ls, rs, lp, rp, ps, h => by
+    rw [assignObj] at h
+    intro c' hreach hf
+    split at h
+    · cases h
+    · rename_i hplan
+      exact leaf_nofail (nrm (.enumv st off w id) lc rc rhs sel ls rs lp rp) ps hplan h c' hreach hf
     · cases h
 theorem okMembers : ∀ (ms : Members) (lc : Option PCtx) (lvl : Bool) (rc : Option PCtx) (rhs : Obj) (sel : Sel)
     (names : List Key) (lp rp : Path) (ps : List Pair),
@@ -779,7 +904,9 @@ def wfObj : Obj → Prop
   | .list ms => wfMembers ms
   | .proxy _ _ t => wfObj t
   | .val .. => True
-  | .int _ => True
+  | .int .. => True
+  | .enumv .. => True
+  | .const _ _ _ _ ms => wfMembers ms
 def wfMembers : Members → Prop
   | .nil => True
   | .cons k o t => k ∉ t.keys ∧ wfObj o ∧ wfMembers t
@@ -821,6 +948,13 @@ theorem nodupObj : ∀ (lhs : Obj) (lc rc : Option PCtx) (rhs : Obj) (sel : Sel)
     · cases h
     · obtain ⟨p, rfl⟩ := assignLeaf_single _ _ _ _ _ _ _ _ _ _ h; simp
     · exact nodupMembers ms lc true _ _ sel _ lp rp ps hw h
+  | .const k sz v fl ms, lc, rc, rhs, sel, ls, rs, lp, rp, ps, hw, h => by
+    rw [assignObj] at h
+    rw [wfObj] at hw
+    split at h
+    · cases h
+    · obtain ⟨p, rfl⟩ := assignLeaf_single _ _ _ _ _ _ _ _ _ _ h; simp
+    · exact nodupMembers ms lc true _ _ sel _ lp rp ps hw h
   | .dict ms, lc, rc, rhs, sel, ls, rs, lp, rp, ps, hw, h => by
     rw [assignObj] at h
     rw [wfObj] at hw
@@ -841,7 +975,13 @@ theorem nodupObj : ∀ (lhs : Obj) (lc rc : Option PCtx) (rhs : Obj) (sel : Sel)
     · cases h
     · obtain ⟨p, rfl⟩ := assignLeaf_single _ _ _ _ _ _ _ _ _ _ h; simp
     · cases h
-  | .int v, lc, rc, rhs, sel, ls, rs, lp, rp, ps, hw, h => by
+  | .int v w sg en, lc, rc, rhs, sel, ls, rs, lp, rp, ps, hw, h => by
+    rw [assignObj] at h
+    split at h
+    · cases h
+    · obtain ⟨p, rfl⟩ := assignLeaf_single _ _ _ _ _ _ _ _ _ _ h; simp
+    · cases h
+  | .enumv st off w id, lc, rc, rhs, sel, ls, rs, lp, rp, ps, hw, h => by
     rw [assignObj] at h
     split at h
     · cases h
@@ -925,7 +1065,9 @@ mutual
     inside a view (`inView`); a `Signal` held by a dict/list or given directly is explicit -/
 def okE (inView : Bool) : Obj → Prop
   | .val _ _ _ _ e => inView = true ∨ e = true
-  | .int _ => True
+  | .int .. => True
+  | .enumv .. => True
+  | .const _ _ _ _ ms => okEM true ms
   | .view _ _ _ _ ms => okEM true ms
   | .dict ms => okEM false ms
   | .list ms => okEM false ms
@@ -965,7 +1107,9 @@ theorem stripAll_ok : ∀ (o : Obj) (c : Option PCtx) (strict : Bool), SideOK c 
     rw [okE] at hb
     exact stripAll_ok t (some ⟨i, s⟩) strict ⟨true, hb, fun _ => .inr (.inl rfl)⟩
   | .val .., c, strict, h => ⟨h, by intro i s t e; cases e⟩
-  | .int _, c, strict, h => ⟨h, by intro i s t e; cases e⟩
+  | .int .., c, strict, h => ⟨h, by intro i s t e; cases e⟩
+  | .enumv .., c, strict, h => ⟨h, by intro i s t e; cases e⟩
+  | .const .., c, strict, h => ⟨h, by intro i s t e; cases e⟩
   | .view .., c, strict, h => ⟨h, by intro i s t e; cases e⟩
   | .dict _, c, strict, h => ⟨h, by intro i s t e; cases e⟩
   | .list _, c, strict, h => ⟨h, by intro i s t e; cases e⟩
@@ -992,9 +1136,15 @@ theorem member_side (c : Option PCtx) (o m : Obj) (strict : Bool) (h : SideOK c 
     cases hi : isInt m <;> simp [isValueLike]
   | dict ms => rw [okE] at hb; exact ⟨false, hm' hb, fun h => by cases h⟩
   | list ms => rw [okE] at hb; exact ⟨false, hm' hb, fun h => by cases h⟩
+  | const k sz v fl ms =>
+    rw [okE] at hb
+    refine ⟨true, hm hb, fun _ => ?_⟩
+    cases hi : isInt m <;> simp [isValueLike]
   | val st off w sg e =>
     exact ⟨false, hm' (by simp [Obj.members, okEM]), fun h => by cases h⟩
-  | int v =>
+  | int v w sg en =>
+    exact ⟨false, hm' (by simp [Obj.members, okEM]), fun h => by cases h⟩
+  | enumv st off w id =>
     exact ⟨false, hm' (by simp [Obj.members, okEM]), fun h => by cases h⟩
 
 /-- the right operand after `strip` -/
@@ -1006,7 +1156,9 @@ theorem strip_side (c : Option PCtx) (o : Obj) (strict : Bool) (h : SideOK c o s
     rw [okE] at hb
     exact ⟨⟨true, hb, fun _ => .inr (.inl rfl)⟩, .inl rfl⟩
   | val st off w sg e => exact ⟨h, .inr (by intro i s t e; cases e)⟩
-  | int v => exact ⟨h, .inr (by intro i s t e; cases e)⟩
+  | int v w sg en => exact ⟨h, .inr (by intro i s t e; cases e)⟩
+  | enumv st off w id => exact ⟨h, .inr (by intro i s t e; cases e)⟩
+  | const k sz v fl ms => exact ⟨h, .inr (by intro i s t e; cases e)⟩
   | view k st off sz ms => exact ⟨h, .inr (by intro i s t e; cases e)⟩
   | dict ms => exact ⟨h, .inr (by intro i s t e; cases e)⟩
   | list ms => exact ⟨h, .inr (by intro i s t e; cases e)⟩
@@ -1029,8 +1181,11 @@ theorem inv_step {a b : Call} (hi : Inv a) (hs : Step a b) : Inv b := by
             rw [hR2] at hb hlook; rw [okE] at hb; exact ⟨true, okEM_lookup true _ k r hb hlook⟩
           | dict ms => rw [hR2] at hb hlook; rw [okE] at hb; exact ⟨false, okEM_lookup false _ k r hb hlook⟩
           | list ms => rw [hR2] at hb hlook; rw [okE] at hb; exact ⟨false, okEM_lookup false _ k r hb hlook⟩
+          | const k' sz v fl ms =>
+            rw [hR2] at hb hlook; rw [okE] at hb; exact ⟨true, okEM_lookup true _ k r hb hlook⟩
           | val st off w sg e => rw [hR2] at hlook; simp [Obj.members, Members.lookup] at hlook
-          | int v => rw [hR2] at hlook; simp [Obj.members, Members.lookup] at hlook
+          | int v w sg en => rw [hR2] at hlook; simp [Obj.members, Members.lookup] at hlook
+          | enumv st off w id => rw [hR2] at hlook; simp [Obj.members, Members.lookup] at hlook
         obtain ⟨b', hb'⟩ := this
         exact ⟨b', hb', fun _ => .inr (.inl hsome)⟩
       · exact member_side a.R.1 a.R.2 r a.rs hR hnp (fun h => okEM_lookup true _ k r h hlook)
@@ -1045,10 +1200,15 @@ theorem inv_reach {a b : Call} (hi : Inv a) (hr : Reach a b) : Inv b := by
 theorem chain_nil (c : Option PCtx) (o o' : Obj) (h : Chain c o [] o') : o' = o := by
   cases h; rfl
 
-/-- an operand that is neither an int nor a container is explicit, strict, or was reached by unwrapping -/
+/-- a Python constant: an int or a member of an Enum class -/
+def isLit : Obj → Bool
+  | .int .. => true
+  | _ => false
+
+/-- an operand that is neither a Python constant nor a container is explicit, strict, or was reached by unwrapping -/
 theorem side_checked (c : Option PCtx) (o l : Obj) (ul : Path) (strict : Bool) (h : SideOK c o strict)
     (hp : c.isSome = true ∨ NotProxy o) (hv : isValueLike o = true) (hu : unwrap c o = .ok (l, ul))
-    (hint : isInt l = false) : (strict || !ul.isEmpty || explicit c l) = true := by
+    (hint : isLit l = false) : (strict || !ul.isEmpty || explicit c l) = true := by
   cases ul with
   | cons k t => simp
   | nil =>
@@ -1056,7 +1216,9 @@ theorem side_checked (c : Option PCtx) (o l : Obj) (ul : Path) (strict : Bool) (
     subst this
     obtain ⟨b, hb, hstrict⟩ := h
     cases l with
-    | int v => simp [isInt] at hint
+    | int v w sg en => simp [isLit] at hint
+    | enumv st off w id => simp [explicit]
+    | const k sz v fl ms => simp [explicit]
     | dict ms => simp [isValueLike] at hv
     | list ms => simp [isValueLike] at hv
     | view k st off sz ms => simp [explicit]
